@@ -551,7 +551,7 @@ def check(prop, tier, keep=False, only=None):
             fh = [h for h in hs if h.flavour == flavour]
             if not fh:
                 continue
-            jobs = min(NCPU, max(1, len(fh)))
+            jobs = min(int(os.environ.get("VERIF_JOBS", "8")), NCPU, max(1, len(fh)))
             res, out, cmd, rc, wall = run_kani(scratch, flavour, fh, jobs)
             cmds.append(cmd)
             raw_logs[flavour] = out
